@@ -5,6 +5,7 @@ from vf.ops import And, Or, Not, ite, Implies
 from vf.tensor import Tn, Unsupported
 from vf.contract import Contract, same
 from vf.spec import spec_tensor
+from vf.world import LoopSpec, defined_loop
 
 
 def n_chunks(L, size, step):
@@ -104,9 +105,160 @@ class Unchunk(Contract):
         return out
 
 
+class FastOneHotEncode(Contract):
+    """C15 (byte-table lookup of one_hot_encode): for a byte sequence over [0, 128) and a 256-entry table with
+    entries -2 (illegal), -1 (ignored) or a column in [0, m): the kernel raises exactly when some byte is illegal;
+    otherwise row i of the (n, m) buffer gets a 1 in column table[seq[i]] and nothing else changes - a byte that
+    is ignored leaves its row untouched (all-zero in a zero buffer), a letter sets exactly its own column.
+    Every read and write is inside its array (numba: no bounds checks)."""
+    qualname = 'tangermeme.utils._fast_one_hot_encode'
+    props = ('C15',)
+    modifies = ('X_ohe',)
+    use_at_calls = False
+
+    def make_args(self, cfg, A):
+        n, m = A.dim('n', 0), A.dim('m', 1)
+        X = A.tensor('X_ohe', 2, 'int', lib='np', shape=[n, m])
+        seq = A.tensor('seq', 1, 'int', lib='np', shape=[n])
+        mapping = A.tensor('mapping', 1, 'int', lib='np', shape=[256])
+        return [X, seq, mapping], {}
+
+    def pre(self, a, cfg):
+        n, m = a.X_ohe.shape
+        return [O.forall_hyp([n], lambda i: And(a.seq[i] >= 0, a.seq[i] < 128)),
+                O.forall_hyp([256], lambda b: And(a.mapping[b] >= -2, a.mapping[b] < m))]
+
+    def rejects(self, a, cfg):
+        return O.exists_box([a.seq.shape[0]], lambda i: O.eq(a.mapping[a.seq[i]], -2))
+
+    def result(self, a, cfg):
+        return None
+
+    @staticmethod
+    def after(X, seq, mapping, upto):
+        return spec_tensor(X.shape, lambda r, c: ite(And(r < upto, O.eq(mapping[seq[r]], c)), 1, X[r, c]), lib='np')
+
+    def post(self, a, r, cfg):
+        return same(a._live['X_ohe'], self.after(a.X_ohe, a.seq, a.mapping, a.seq.shape[0]), 'X_ohe-after')
+
+    def loops(self):
+        f = z3.Function('X_ohe', z3.IntSort(), z3.IntSort(), z3.IntSort())
+
+        def d1(fr, it):
+            env = fr.env
+            X = env['X_ohe']
+            base = spec_tensor(X.shape, lambda r, c: f(O.to_z3(r), O.to_z3(c)), lib='np')
+            return FastOneHotEncode.after(base, env['seq'], env['mapping'], it)
+
+        def legal(E, fr):
+            env = fr.env
+            return [('no-illegal-byte-so-far', E.forall([E.it], lambda r: O.ne(env['mapping'][env['seq'][r]], -2)))]
+        return {1: defined_loop({'X_ohe': d1}, extra=legal)}
+
+
+from vf.contract import FragmentContract
+
+
+class OneHotMapping(FragmentContract):
+    """C15 (byte table of one_hot_encode, the statements that build `one_hot_mapping`): for an alphabet of distinct
+    ASCII bytes and a disjoint ignore set, the 256-entry table sends the i-th alphabet byte to column i, every
+    ignored byte to -1 and EVERY other byte to -2 (illegal) - whatever the table held before is irrelevant, and
+    nothing is written outside [0, 256)."""
+    qualname = 'tangermeme.utils.one_hot_encode'
+    props = ('C15',)
+    key = 'tangermeme.utils.one_hot_encode#mapping'
+    stmt_block = ('one_hot_mapping = numpy.zeros(256', ('until', 'for i, idx in enumerate(ignore_idxs'))
+    L_ALPHA, L_IGNORE = 2, 3
+
+    def scopes(self, cfg):
+        return [{'default': 2}, {'default': 3}, {'default': 1}]
+
+    def make_env(self, cfg, A):
+        m, g = A.dim('m', 1), A.dim('g', 0)
+        al = A.tensor('alpha_idxs', 1, 'int', lib='np', shape=[m])
+        ig = A.tensor('ignore_idxs', 1, 'int', lib='np', shape=[g])
+        A.assume(m <= 127)
+        A.assume(O.forall_hyp([m], lambda i: And(al[i] >= 0, al[i] < 128)))
+        A.assume(O.forall_hyp([g], lambda j: And(ig[j] >= 0, ig[j] < 128)))
+        A.assume(O.forall_hyp([m, m], lambda i, k: Implies(O.ne(i, k), O.ne(al[i], al[k]))))
+        A.assume(O.forall_hyp([m, g], lambda i, j: O.ne(al[i], ig[j])))
+        return dict(alpha_idxs=al, ignore_idxs=ig)
+
+    @staticmethod
+    def table(env, mp, n_alpha, n_ign, fa):
+        """the table after the first n_alpha alphabet bytes and n_ign ignored bytes have been entered"""
+        al, ig = env['alpha_idxs'], env['ignore_idxs']
+        b = z3.Int('tb')
+        other = z3.ForAll([b], z3.Implies(
+            z3.And(0 <= b, b < 256,
+                   O.to_z3(O.forall_hyp([n_alpha], lambda i: O.ne(al[i], b))),
+                   O.to_z3(O.forall_hyp([n_ign], lambda j: O.ne(ig[j], b)))),
+            O.to_z3(O.eq(mp[b], -2))))
+        return [('alphabet byte i -> column i', fa([n_alpha], lambda i: O.eq(mp[al[i]], i))),
+                ('ignored byte -> -1', fa([n_ign], lambda j: O.eq(mp[ig[j]], -1))),
+                ('any other byte -> -2', other)]
+
+    def loops(self):
+        cls = type(self)
+
+        def shape_ok(mp):
+            return [('table-shape', And(mp.rank == 1, O.eq(mp.shape[0], 256)) if mp.rank == 1 else False)]
+
+        def l_alpha(E, fr):
+            mp = fr.env['one_hot_mapping']
+            return shape_ok(mp) + cls.table(fr.env, mp, E.it, 0, E.forall)
+
+        def l_ignore(E, fr):
+            mp = fr.env['one_hot_mapping']
+            return shape_ok(mp) + cls.table(fr.env, mp, fr.env['alpha_idxs'].shape[0], E.it, E.forall)
+        return {self.L_ALPHA: LoopSpec(l_alpha), self.L_IGNORE: LoopSpec(l_ignore)}
+
+    def replay_fragment(self, cfg, st):
+        """the real whole function on a string over the alphabet, the ignore set and one foreign byte"""
+        import torch
+        from tangermeme.utils import one_hot_encode
+        al, ig = st.get('alpha_idxs') or [], st.get('ignore_idxs') or []
+        if not al:
+            return []
+        pool = [chr(c) for c in range(65, 91)]
+        alphabet = pool[:len(al)]
+        ignore = pool[len(al):len(al) + len(ig)]
+        out = []
+        seq = ''.join(alphabet + ignore)
+        try:
+            X = one_hot_encode(seq, alphabet=alphabet, ignore=ignore)
+            exp = torch.zeros(len(alphabet), len(seq), dtype=X.dtype)
+            for i in range(len(alphabet)):
+                exp[i, i] = 1
+            if tuple(X.shape) != tuple(exp.shape) or not torch.equal(X, exp):
+                out.append('one_hot_encode(%r, alphabet=%r, ignore=%r) = %s' % (seq, alphabet, ignore, X.tolist()))
+        except Exception as e:
+            out.append('one_hot_encode(%r, alphabet=%r, ignore=%r) raised %s' % (seq, alphabet, ignore, type(e).__name__))
+        foreign = pool[len(al) + len(ig)]
+        try:
+            one_hot_encode(alphabet[0] + foreign, alphabet=alphabet, ignore=ignore)
+            out.append('one_hot_encode accepted %r, which is neither in alphabet %r nor in ignore %r' % (foreign, alphabet, ignore))
+        except ValueError:
+            pass
+        return out
+
+    def post_env(self, b, a, outcome, cfg):
+        out = [('no-exception', not outcome.startswith('raise'))]
+        if not out[0][1]:
+            return out
+        mp = a.one_hot_mapping
+        env = dict(alpha_idxs=b.alpha_idxs, ignore_idxs=b.ignore_idxs)
+        if not isinstance(mp, Tn) or mp.rank != 1:
+            return out + [('table-is-a-vector', False)]
+        out.append(('table-has-256-entries', O.eq(mp.shape[0], 256)))
+        return out + type(self).table(env, mp, b.alpha_idxs.shape[0], b.ignore_idxs.shape[0], O.forall)
+
+
 def register(world):
     from contracts.utils_c import ValidateInput
     if 'tangermeme.utils._validate_input' not in world.contracts:
         world.register(ValidateInput())
     world.register(Chunk())
     world.register(Unchunk())
+    world.register(FastOneHotEncode())
+    world.register_fragment(OneHotMapping())
